@@ -411,8 +411,20 @@ func (t *FnTrans) applyModifies(ct *Contract, env *Env) {
 	na := t.newConst("$alloc", "Int")
 	t.emit("(assert " + implies(t.guard, app(">=", na, t.get("$alloc"))) + ")")
 	t.set("$alloc", na)
+	// all items denote locations of the pre-state: collect first, then havoc
+	type modLoc struct{ comp, sortS, ref string }
+	var locs []modLoc
+	preSt := t.cur.clone()
+	saveSt := env.st
+	env.st = preSt
 	for _, m := range ct.Modifies {
 		t.modItem(m.E, env, func(comp string, sortS string, ref string) {
+			locs = append(locs, modLoc{comp, sortS, ref})
+		})
+	}
+	env.st = saveSt
+	for _, ml := range locs {
+		func(comp string, sortS string, ref string) {
 			t.comp(comp, sortS)
 			if ref == "" {
 				t.set(comp, t.freshVersion(comp, "@m"))
@@ -429,7 +441,7 @@ func (t *FnTrans) applyModifies(ct *Contract, env *Env) {
 				}
 				t.set(comp, app("store", t.get(comp), ref, fv))
 			}
-		})
+		}(ml.comp, ml.sortS, ml.ref)
 	}
 }
 
